@@ -115,6 +115,18 @@ func (w *World) SetCapacities(caps []RootSpec) {
 	simos.Install(w.Disk)
 }
 
+// SetCapacitiesExact installs capacities as given (Reported/Real are absolute capacities).
+func (w *World) SetCapacitiesExact(caps []RootSpec) {
+	w.Disk = &simos.Disk{}
+	for i, rs := range caps {
+		if i >= len(w.Roots) {
+			continue
+		}
+		w.Disk.Roots = append(w.Disk.Roots, &simos.Root{Path: w.Roots[i], Reported: rs.Reported, Real: rs.Real, Partial: rs.Partial})
+	}
+	simos.Install(w.Disk)
+}
+
 // usedBytes is the number of content bytes currently stored under root i.
 func (w *World) usedBytes(i int) int64 {
 	var n int64
